@@ -59,7 +59,16 @@ class Pools:
                         lx.CG(rtol=1e-8, atol=1e-8, max_steps=170),
                         # a solver that cannot converge on the 3x3 test system: makes solver_throw observable
                         lx.CG(rtol=1e-12, atol=1e-12, max_steps=1)]
-        self.options = [{}, {'y0': jnp.zeros(3, jnp.float32)}]
+        import jax
+
+        from furax._base.diagonal import DiagonalOperator
+
+        # (the third one holds a preconditioner: an operator-valued option that the solve wraps before use - the captured
+        # and the active configurations must keep holding the caller's object)
+        precond = DiagonalOperator(jnp.asarray([0.25, 0.3, 0.5], jnp.float32), in_structure=jax.ShapeDtypeStruct((3,), jnp.float32))
+        self.options = [{}, {'y0': jnp.zeros(3, jnp.float32)}, {'preconditioner': precond}]
+        # what the caller put into each dict (the dicts themselves are handed to the library)
+        self.options_pristine = [dict(o) for o in self.options]
         self.calls: list = []
 
         def make(i):
@@ -253,10 +262,14 @@ class History:
 
     # ---- comparison helpers
     def _same_field(self, f, got, want):
-        if got is want:
+        if got is want and f != 'solver_options':
             return True
         if f == 'solver_options':
-            return isinstance(got, dict) and got.keys() == want.keys() and all(got[k] is want[k] for k in got)
+            ref = want
+            for o_, p_ in zip(self.pools.options, self.pools.options_pristine):
+                if want is o_:
+                    ref = p_  # the caller's dict must still hold the caller's objects
+            return isinstance(got, dict) and got.keys() == ref.keys() and all(got[k] is ref[k] for k in got)
         if f == 'solver_throw':
             return got == want
         return False
@@ -479,7 +492,7 @@ def custom_run(ctx, examples, budget):
     state = {'last': None, 'fail': None}
 
     settings_st = st.fixed_dictionaries({}, optional={
-        'solver': st.integers(0, 3), 'throw': st.booleans(), 'options': st.integers(0, 1), 'callback': st.integers(0, 2)})
+        'solver': st.integers(0, 3), 'throw': st.booleans(), 'options': st.integers(0, 2), 'callback': st.integers(0, 2)})
     sub_st = st.lists(st.one_of(st.tuples(st.just('enter'), settings_st), st.tuples(st.just('read'), st.none()),
                                 st.tuples(st.just('exit'), st.none()), st.tuples(st.just('exit_exc'), st.none())), max_size=6)
 
